@@ -69,6 +69,28 @@ def gen_cases(ctx):
     cases.insert(0, {"op": "inproc", "helper": "mean", "kind": "timedelta", "args": {}, "vals": [3 * 86400, None, 86400, 5, 7], "g": [0, 0, 0, 1, 1]})
     cases.insert(0, {"op": "inproc", "helper": "mode", "kind": "float", "args": {"drop_na": False}, "vals": ["nan", "nan", 2.0, 5.5, 5.5], "g": [0, 0, 0, 1, 1]})
     cases.insert(1, {"op": "inproc", "helper": "median", "kind": "float", "args": {"drop_na": False}, "vals": ["nan", 0.25, 0.25, "nan", "nan", 1.0], "g": [0, 0, 0, 0, 0, 1]})
+    # a small spread around a large value, for the helpers whose kernels do arithmetic: "up to floating-point rounding" is a
+    # bound on the difference, not a licence for a formula that cancels catastrophically
+    for _ in range(24 if ctx.tier == "quick" else 400):
+        h = rng.choice(["std", "var", "std", "var", "mean", "sum", "median", "quantile"])
+        kind = rng.choice(["float", "int"])
+        base = rng.choice([16000000, 100000000, 1600000000])   # (eps*base)**2 stays far below the tolerance: a two-pass formula is exact enough
+        nrow = rng.choice([3, 4, 6, 9])
+        vals = [base + rng.choice([0, 1, 2, 3, 5, 7]) for _ in range(nrow)]
+        a = C07.gen_args(rng, h)
+        if h in ("std", "var"):
+            a["ddof"] = rng.choice([0, 0, 1])
+        cases.append({"op": "inproc", "helper": h, "kind": kind, "args": a, "vals": [float(v) for v in vals] if kind == "float" else vals,
+                      "g": [rng.randint(0, 1) for _ in range(nrow)]})
+    # unsigned and narrow integer columns are integer columns ("every column type eligible for Numba acceleration"): same
+    # values and same kind of result with the switch on as off (fixed c51864e: sum of an unsigned column was a float)
+    for _ in range(30 if ctx.tier == "quick" else 600):
+        h = rng.choice(["sum", "sum", "max", "min", "count", "count_unique", "mean", "median", "any", "all", "std", "var", "quantile"])
+        kind = rng.choice(["uint8", "uint8", "uint64", "int32"])
+        pool = {"uint8": [0, 1, 2, 7, 200, 255], "uint64": [0, 1, 3, 1000, 4000000000], "int32": [0, 1, -1, 7, 70000, -70000]}[kind]
+        nrow = rng.choice([1, 2, 4, 6, 9])
+        cases.append({"op": "inproc", "helper": h, "kind": kind, "args": C07.gen_args(rng, h), "nomodel": True,
+                      "vals": [rng.choice(pool) for _ in range(nrow)], "g": [rng.randint(0, 2) for _ in range(nrow)]})
     # several helpers on the same column in ONE aggregate() call ("in the same call")
     nm = 60 if ctx.tier == "quick" else 1500
     for _ in range(nm):
@@ -213,7 +235,7 @@ def impl(case):
 
 
 def model_requests(case, obs):
-    if case["op"] != "inproc" or case.get("kind") == "timedelta":
+    if case["op"] != "inproc" or case.get("kind") == "timedelta" or case.get("nomodel"):
         return []      # timedelta: Numba on = off is the whole claim (no kernel model: never accelerated)
     c = dict(case, op="group")
     reqs = C07.model_requests(c, obs)
@@ -227,7 +249,11 @@ def compare(ctx, case, nb, py, label, prior):
     na_args = (case.get("args") or {})
     has_na = any(vecgen.is_na_val("float" if kind == "floatna" else kind, v) for v in case.get("vals", [])) if "vals" in case else (kind in ("floatna", "date"))
     if "err" in py:
-        return  # the Python path itself fails: C07's business
+        if "err" not in nb:
+            # the switch decides between a result and an exception: not "the same values with the switch on as off"
+            ctx.violation("oracle", f"python-raises:{h}", f"{label}: with USE_NUMBA off the call raised ({py['err']}), with it on it returns {nb['out']}",
+                          case, {"numba": nb, "python": py})
+        return
     if "err" in nb:
         ctx.violation("oracle", f"numba-raises:{h}", f"{label}: Numba path raised where the Python path works: {nb['err']}", case, {"numba": nb, "python": py})
         return
@@ -258,6 +284,8 @@ def judge(ctx, case, obs, mouts):
     if case["op"] == "multi":
         ctx.count("multi")
         nb, py = obs["numba"], obs["python"]
+        if "err" in py and "err" not in nb:
+            ctx.violation("oracle", "multi:python-raises", f"with USE_NUMBA off a multi-helper aggregate raised ({py['err']}), with it on it returns", case, obs)
         if "err" not in py:
             if "err" in nb:
                 ctx.violation("oracle", "multi:numba-raises", f"Numba path raised in a multi-helper aggregate: {nb['err']}", case, obs)
